@@ -32,7 +32,78 @@ use vdesign::*;
 use veryl_synthesizer::analysis::{compute_area, compute_timing};
 use veryl_synthesizer::library_for;
 
+/// Insert `Buf` cells: for up to 8 nets chosen by `seed`, a new net carries a
+/// buffered copy and every second reader (cell input, FF D pin) is moved to it.
+fn buffered_variant(m: &veryl_synthesizer::ir::GateModule, seed: u64) -> Option<veryl_synthesizer::ir::GateModule> {
+    use veryl_synthesizer::ir::{Cell, CellKind, NetDriver, NetInfo};
+    if m.cells.is_empty() && m.ffs.is_empty() {
+        return None;
+    }
+    let mut g = m.clone();
+    let mut s = seed | 1;
+    let mut next = || {
+        s ^= s << 13;
+        s ^= s >> 7;
+        s ^= s << 17;
+        s
+    };
+    // nets that are read by a cell or an FF D pin
+    let mut read: Vec<u32> = g.cells.iter().flat_map(|c| c.inputs.clone()).chain(g.ffs.iter().map(|f| f.d)).filter(|&n| n >= 2).collect();
+    read.sort();
+    read.dedup();
+    if read.is_empty() {
+        return None;
+    }
+    let n_orig_cells = g.cells.len();
+    for _ in 0..8 {
+        let src = read[(next() % read.len() as u64) as usize];
+        let nn = g.nets.len() as u32;
+        let ci = g.cells.len();
+        g.nets.push(NetInfo {
+            driver: NetDriver::Cell(ci),
+            origin: None,
+        });
+        g.cells.push(Cell {
+            kind: CellKind::Buf,
+            inputs: vec![src],
+            output: nn,
+        });
+        let mut flip = next() & 1 == 0;
+        let mut moved = false;
+        for c in g.cells[..n_orig_cells].iter_mut() {
+            for x in c.inputs.iter_mut() {
+                if *x == src {
+                    flip = !flip;
+                    if flip {
+                        *x = nn;
+                        moved = true;
+                    }
+                }
+            }
+        }
+        for f in g.ffs.iter_mut() {
+            if f.d == src {
+                flip = !flip;
+                if flip || !moved {
+                    f.d = nn;
+                    moved = true;
+                }
+            }
+        }
+        if !moved {
+            // nobody uses the copy: drop it again (a dangling cell is fine for the IR, but keep the variant tidy)
+            g.cells.pop();
+            g.nets.pop();
+        }
+    }
+    Some(g)
+}
+
 pub fn evaluate(case: &SynthCase) -> Outcome {
+    evaluate_with(case, 0x9E37_79B9_7F4A_7C15)
+}
+
+pub fn evaluate_with(case: &SynthCase, extra: u64) -> Outcome {
     let a = match Analyzed::new(&case.text) {
         Ok(a) => a,
         Err(r) => {
@@ -99,6 +170,30 @@ pub fn evaluate(case: &SynthCase) -> Outcome {
             }
         }
     }
+    // ---- the report functions on a variant of the netlist with Buf cells in
+    // it (the optimiser leaves none, so the "Buf adds delay but no level" rule
+    // would otherwise never be exercised): some nets get a buffered copy that
+    // half of their readers use.  Still a well-formed GateModule.
+    if let Some(mb) = buffered_variant(m, extra) {
+        let stb = check_structure(&mb);
+        if let Some(f) = stb.first() {
+            // the variant is ours: a malformed one is a harness bug, not a finding
+            return Outcome::skip(format!("harness: buffered variant malformed ({})", f.0));
+        }
+        let lib = library_for(case.library);
+        let ar = check_area(&mb, lib, &compute_area(&mb, lib));
+        if let Some(f) = ar.first() {
+            return fail(f, "area report of the buffered variant");
+        }
+        let (tr, facts) = check_timing_opt(&mb, lib, &compute_timing(&mb, lib), false);
+        if let Some(f) = tr.first() {
+            return fail(f, "timing report of the buffered variant");
+        }
+        classes.push("variant:buffered".into());
+        if facts.bufs > 0 && facts.depth_at_endpoint > 0 {
+            classes.push("variant:buf_and_levels".into());
+        }
+    }
     if sr.area.memory > 0.0 {
         classes.push("area:memory".into());
     }
@@ -126,7 +221,8 @@ pub fn replay_recorded(p: &Value) -> Outcome {
 
 pub fn one_case(d: &mut Draw) -> Outcome {
     let case = gen_case(d);
-    evaluate(&case)
+    let extra = d.u64();
+    evaluate_with(&case, extra)
 }
 
 pub fn run(ctx: &Ctx) {
@@ -136,7 +232,7 @@ pub fn run(ctx: &Ctx) {
     }
     ctx.run_payloads("recorded", |p| crate::c19::recorded_on_own_thread(p, replay_recorded));
     let n = std::env::var("C20_CASES").ok().and_then(|s| s.parse::<usize>().ok()).unwrap_or(ctx.scale(400, 30_000));
-    ctx.run("cases", CaseCfg::cases(n).choices(12_000).timeout_s(600), |d| crate::c19::discover("C20", one_case(d)));
+    ctx.run("cases", CaseCfg::cases(n).choices(60_000).timeout_s(600), |d| crate::c19::discover("C20", one_case(d)));
     ctx.assume("counting rules of the timing report as stated in compute_timing_top_n: start points arrive at 0, Buf adds delay but no level, an asynchronous RAM read adds SramModel::access_delay(depth) and one level from its latest address bit, end points are FF D pins, output/inout bits and RAM write pins");
     ctx.assume("'critical-path depth' is read as: levels of the longest path to the reported (latest-arriving) end point; whether a deeper but faster end point exists is recorded as a class, not asserted");
     ctx.finish(
